@@ -149,7 +149,7 @@ func fmtWorker(w *vf.Worker) {
 			w.Count("symbol:fmt:flag:"+string(ch), 1)
 		}
 		fm := sval(c.f)
-		group := func(fn string) string { return fmt.Sprintf("printf[%s:%%%s]", fn, c.verb) }
+		group := func(fn string) string { return fmt.Sprintf("printf[%s %%%s]", fn, c.verb) }
 		for vi, v := range vals {
 			want := wants[vi]
 			in := mv(v[0], v[1])
@@ -173,16 +173,16 @@ func fmtWorker(w *vf.Worker) {
 				w.Count("asserted:fmtnum", 1)
 				w.Count("asserted:fmtifnum", 1)
 				if !got.IsError() {
-					viol("printf[fmtnum:non-numeric]", c, key, fmt.Sprintf("%s = %s, expected an error (fmtifnum help: 'returns the first argument as-is if the output would be an error')", key, show(render(got))), rp)
+					viol("printf[fmtnum non-numeric]", c, key, fmt.Sprintf("%s = %s, expected an error (fmtifnum help: 'returns the first argument as-is if the output would be an error')", key, show(render(got))), rp)
 				}
 				if got2.String() != v[1] {
-					viol("printf[fmtifnum:non-numeric]", c, "fmtifnum"+key[6:], fmt.Sprintf("fmtifnum(%q,%q) = %s, expected the input", v[1], c.f, show(render(got2))), rp)
+					viol("printf[fmtifnum non-numeric]", c, "fmtifnum"+key[6:], fmt.Sprintf("fmtifnum(%q,%q) = %s, expected the input", v[1], c.f, show(render(got2))), rp)
 				}
 			case want == "N":
 				w.Nontrivial(1)
 				w.Count("asserted:fmtnum", 1)
 				if got.IsError() {
-					viol("printf[fmtnum:bool]", c, key, fmt.Sprintf("%s is an error; the help says fmtnum converts int/float/bool", key), rp)
+					viol("printf[fmtnum bool]", c, key, fmt.Sprintf("%s is an error; the help says fmtnum converts int/float/bool", key), rp)
 				}
 			default:
 				w.Nontrivial(2)
@@ -239,13 +239,13 @@ func fmtWorker(w *vf.Worker) {
 				w.Count("asserted:"+fn, 1)
 				g := "s:" + hx(m[fmt.Sprintf("n%d", vi)])
 				if ok, _ := matchWant(g, want); !ok {
-					viol(fmt.Sprintf("printf[%s:%%%s]", fn, c.verb), c, fmt.Sprintf("%s on %s", key, v[1]),
+					viol(fmt.Sprintf("printf[%s %%%s]", fn, c.verb), c, fmt.Sprintf("%s on %s", key, v[1]),
 						fmt.Sprintf("mlr %s renders %s as %s; C printf gives %s", strings.Join(args, " "), v[1], show(g), show(want)),
 						map[string]any{"args": args, "input": rec, "field": fmt.Sprintf("n%d", vi), "got": show(g), "expected": show(want)})
 				}
 			}
 			if m["s"] != "abc" {
-				viol("printf["+fn+":string-field]", c, key, fmt.Sprintf("mlr %s changed the string field abc to %q", strings.Join(args, " "), m["s"]), map[string]any{"args": args})
+				viol("printf["+fn+" string-field]", c, key, fmt.Sprintf("mlr %s changed the string field abc to %q", strings.Join(args, " "), m["s"]), map[string]any{"args": args})
 			}
 		}
 		same := func(vi int) string { return "s:" + hx(vals[vi][1]) }
